@@ -23,6 +23,8 @@ class Pipe:
         self.busy = False
         self.last = 0.0
         self.closed = False
+        self.coalesce = None  # callable() -> bool: merge the next due chunk into this read (a serial driver hands over whatever has arrived)
+        self.coalesced = 0
 
     def put(self, item, latency: float = 0.0):
         """item: bytes (delivered to sink) or a zero-argument callable (special event)."""
@@ -46,6 +48,11 @@ class Pipe:
             self.busy = False
             return
         _t, item = self.q.popleft()
+        if self.coalesce is not None and not callable(item):
+            now = self.loop.time()
+            while self.q and self.q[0][0] <= now and not callable(self.q[0][1]) and self.coalesce():
+                item = item + self.q.popleft()[1]
+                self.coalesced += 1
         try:
             if not self.closed:
                 if callable(item):
@@ -194,6 +201,9 @@ class Line:
         self.chunking = chunking
         self.h2n = Pipe(loop, "h2n")
         self.n2h = Pipe(loop, "n2h")
+        if chunking:
+            # reads may also span frame boundaries: chunks that are due at the same instant can be handed over as one read
+            self.h2n.coalesce = self.n2h.coalesce = lambda: tape.draw(2, "coalesce") == 1
         self.trace = []  # abstract: (dir, frame kind, fault)
 
     def _latency(self) -> float:
@@ -234,9 +244,11 @@ class Line:
         if fault == "corrupt":
             nbits = len(raw) * 8
             n = 1 + tape.draw(2, "flip.n")
-            bits = set()
-            while len(bits) < n:
-                bits.add(tape.draw(nbits, "flip.bit"))
+            b1 = tape.draw(nbits, "flip.bit")
+            bits = {b1}
+            if n == 2:  # a second, different bit (never a loop on the tape: a replayed tape answers 0 past its end)
+                b2 = tape.draw(nbits - 1, "flip.bit2")
+                bits.add(b2 + 1 if b2 >= b1 else b2)
             data = prefix + R.wire_raw(R.flip_bits(raw, bits))
         elif fault == "dup":
             data = intact + intact
